@@ -1799,8 +1799,7 @@ def real_connect_failures(ctx, workdir: str) -> None:
 
     sock = socket.socket()
     sock.bind(("127.0.0.1", 0))
-    free_port = sock.getsockname()[1]
-    sock.close()
+    free_port = sock.getsockname()[1]  # stays bound (never listening) while the cases run: refused, and not reusable
     variants = {
         "tcp-refused": lambda: TCPTransport("127.0.0.1", free_port),
         "tcp-port-out-of-range": lambda: TCPTransport("127.0.0.1", 70000),
